@@ -370,7 +370,18 @@ func c46ArmorTamper(m *mon.M) {
 			case "variant-nocrc":
 				o.NoCRC = true
 			case "wrong-crc":
-				c := pgpfmt.CRC24(body) ^ (1 + uint32(r.IntN(0xFFFFFF)))
+				good := pgpfmt.CRC24(body)
+				c := good ^ (1 + uint32(r.IntN(0xFFFFFF)))
+				// every other wrong-crc case announces a value a reader might treat
+				// as "no checksum seen" or mishandle at a bit boundary: 0 ("=AAAA"),
+				// all ones, single bits, the right value with one bit flipped
+				if sp := []uint32{0, 0xFFFFFF, 1, 0x800000, good ^ 1, good ^ 0x800000, 0xB704CE, 0}[int(i/int64(len(kinds))/2)%8]; (i/int64(len(kinds)))%2 == 0 && sp != good {
+					c = sp
+					m.Count("wrong_crc_special_values", 1)
+					if c == 0 {
+						m.Count("wrong_crc_zero_value", 1)
+					}
+				}
 				o.CRC = &c
 			}
 			text = pgpfmt.EncodeArmor("PGP MESSAGE", [][2]string{{"Comment", "ref"}}, body, o)
@@ -915,7 +926,7 @@ func TestC46(t *testing.T) {
 	m := mon.New(t, "C46")
 	defer m.Done()
 	curMon = m
-	m.Rule("armor: case = (type, header map, body 0..10 KiB with lengths around 48-octet line multiples, write chunking); armor.Encode -> armor.Decode must return the same type/headers/body for every header map a one-line 'Key: Value' syntax can carry (others: outcome observed), and the emitted text must read identically under a strict RFC 4880 §6.2 parser with a reference CRC-24. " +
+	m.Rule("armor: case = (type, header map, body 0..10 KiB with lengths around 48-octet line multiples, write chunking); armor.Encode -> armor.Decode must return the same type/headers/body for every header map a one-line 'Key: Value' syntax can carry (others: outcome observed), and the emitted text must read identically under a strict RFC 4880 §6.2 parser with a reference CRC-24 (the wrong-crc tamper kind announces random wrong values and, every other case, 0 (=AAAA), 0xFFFFFF, single bits and the right value with one bit flipped). " +
 		"armor-tamper: single octet substitutions / checksum edits / padding edits / truncations of armored text; judged invariant: when Decode+read succeeds and the text has a checksum line, CRC-24(returned body) equals it. " +
 		"clearsign: case = (signer RSA/DSA/ECDSA incl. signing subkey, hash, text built from nasty line heads: '-', '- ', 'From ', armor look-alikes, trailing blanks/tabs, CR/LF mixes, no final newline, empty); Encode -> Decode must return the §7.1 canonical text (Bytes) and LF text (Plaintext), leave no rest, the signature must verify over Bytes with the right signer and fail over altered Bytes; every 100th case (text containing all classes) is also verified by gpg. gpg --clearsign output (digest, signer, extra Hash headers, NotDashEscaped) must decode and verify here. distinct = (stream, algorithms, text/length/header class)")
 	m.Assume("GnuPG 2.2.40 is a correct OpenPGP implementation (witness for armor and cleartext signatures); ref/pgpfmt (CRC-24, radix-64, strict armor parser, §7.1 text model) is validated by its own vectors incl. the RFC 4880 §6.6 example; keys are fresh per process (gpg and rsa.GenerateKey randomness is not PRNG-controlled, messages and algorithms are)")
@@ -956,6 +967,7 @@ func TestC46(t *testing.T) {
 	m.Gate("armor_empty_body", 1, "zero-length body")
 	m.Gate("armor_len_multiple_of_48", 10, "bodies that fill the last line exactly")
 	m.Gate("armor_len_next_to_multiple_of_48", 10, "bodies one octet off a full line")
+	m.Gate("wrong_crc_zero_value", m.N(20, 500), "texts announcing the checksum value 0 (=AAAA) over a body whose CRC-24 is not 0")
 	m.Gate("crc_mismatch_rejected", m.N(800, 20000), "texts whose checksum line does not match were rejected")
 	m.Gate("clearsign_exact_model_cases", m.N(600, 25000), "clearsign round trips compared with the exact §7.1 model")
 	m.Gate("clearsign_go_verifications", m.N(1000, 40000), "embedded signatures verified")
